@@ -242,6 +242,13 @@ class ArrayConstraintBuilder(ConstraintOverrideVisitor):
                     # Extend the size appropriately
                     for i in range(max_size-len(f.field_l)):
                         f.add_field()
+                elif len(f.field_l) > max_size and f.is_scalar and max_size >= 0:
+                    # Elements beyond the largest size that this call admits
+                    # take no part in it (they are kept aside in case the 
+                    # call fails)
+                    f.presolve_tail = f.field_l[max_size:]
+                    del f.field_l[max_size:]
+                    f._set_size(len(f.field_l))
 
             if not f.is_scalar:
                 # Rand-sized arrays inside the elements of an array 
